@@ -10,9 +10,9 @@ import os
 import verif as V
 
 PROP = "C16"
-SPEC = ["Bng.Spec.C16Teardown", "Bng.Spec.C16Pppoe", "Bng.Spec.C16SubMgr"]
+SPEC = ["Bng.Spec.C16Teardown", "Bng.Spec.C16Pppoe", "Bng.Spec.C16PppoeWhole", "Bng.Spec.C16SubMgr"]
 COMPS = [
-    V.Component("pppoesrv", monitors=["residue", "conservation"]),
+    V.Component("pppoesrv", monitors=["residue", "conservation", "obs-roundtrip"]),
     V.Component("teardown", monitors=["double-stop", "double-cleanup", "residue", "missing-stop", "stop-unstarted", "stop-before-end", "not-terminated", "double-padt", "stop-without-start"]),
     V.Component("submgr", monitors=["double-release", "double-end", "residue", "index-mismatch"]),
 ]
